@@ -162,6 +162,23 @@ DirDefP(a, b, P) ==
 DirDef(a, b, ts, te, mtau, m) == DirDefP(a, b, Coinc(a, b, ts, te, mtau, m))
 RECURSIVE ISum(_)
 ISum(s) == IF Len(s) = 0 THEN 0 ELSE s[1] + ISum(Tail(s))
+(***************************************************************************)
+(* C15  automatic threshold: mean square of the pooled interval lengths     *)
+(***************************************************************************)
+\* every inter-spike interval once, an edge interval (only when the first / last spike is not on
+\* the edge) as the larger of the edge distance and the neighbouring interval, a one-spike train its
+\* two edge distances, an empty train the recording length.
+PoolDefT(s, ts, te) ==
+   LET N == Len(s) IN
+   IF N = 0 THEN <<te-ts>>
+   ELSE IF N = 1 THEN <<s[1]-ts, te-s[1]>>
+   ELSE (IF s[1] > ts THEN <<EdgeFirst(s, ts)>> ELSE <<>>)
+        \o [k \in 1..(N-1) |-> s[k+1]-s[k]]
+        \o (IF s[N] < te THEN <<EdgeLast(s, te)>> ELSE <<>>)
+SqSum(p) == ISum([k \in 1..Len(p) |-> p[k]*p[k]])
+\* pooled over a list of trains
+AutoSqList(l, ts, te) ==
+   Norm(ISum([k \in 1..Len(l) |-> SqSum(PoolDefT(l[k], ts, te))]), ISum([k \in 1..Len(l) |-> Len(PoolDefT(l[k], ts, te))]))
 \* one-to-one: no spike takes part in two coincidences
 OneToOne(P) == \A p1, p2 \in P : (p1[1] = p2[1] \/ p1[2] = p2[2]) => p1 = p2
 =============================================================================
